@@ -292,7 +292,7 @@ def axis_st(nd):
 @st.composite
 def shape_st(draw, nd, hi, empty_p=10, lo=1):
     """nd sides in lo..hi; with probability empty_p % (one decision per case) sides may also be 0."""
-    lo_eff = 0 if draw(st.integers(0, 99)) < empty_p else lo
+    lo_eff = 0 if 40 <= draw(st.integers(0, 99)) < 40 + empty_p else lo
     return [draw(st.integers(lo_eff, hi)) for _ in range(nd)]
 
 
